@@ -141,9 +141,14 @@ def run(spec, env):
             def cb(fut):
                 env.rec("cb-raise-run", op[1])
                 raise env.exc(("cb", op[1]))
+            def witness(fut, k=i):
+                env.rec("cb-witness-run", op[1], k)
             try:
                 f.add_done_callback(cb)
                 env.rec("op-ret", "cbraise", op[1], "ok", None, i)
+                # a second callback behind the raising one: the fault must not swallow it
+                f.add_done_callback(witness)
+                env.rec("cb-witness-added", op[1], i)
             except Exception as e:
                 # expected only when the future is already done (the user's own exception)
                 env.rec("op-ret", "cbraise", op[1], "raised", type(e).__name__, i)
@@ -194,8 +199,22 @@ def check(spec, env):
         elif e[3] == "op-ret" and e[4] == "cbraise" and e[6] == "raised" and e[7] != "ScriptedError":
             out.append({"oracle": "escaped", "sig": "escaped|add_done_callback|%s" % e[7],
                         "msg": "add_done_callback() raised %s; layers %s" % (e[7], types)})
-    # (3) untargeted futures still get the reference outcome
+    # (2b) a raising done-callback is the callback's own problem: one registered behind it on the
+    #      same future still runs (once) when the future finishes
     finals = env.objs.get("finals", {})
+    added = [e for e in log if e[3] == "cb-witness-added"]
+    ran = {}
+    for e in log:
+        if e[3] == "cb-witness-run":
+            ran[e[5]] = ran.get(e[5], 0) + 1
+    for e in added:
+        st = finals.get(e[4])
+        if st is not None and st[0] != "pending" and ran.get(e[5], 0) != 1:
+            out.append({"oracle": "callback-swallowed", "sig": "callback-behind-raising-callback-ran-%d-times" % ran.get(e[5], 0),
+                        "msg": "submission %r: a done-callback registered right after one that raises ran %d times although the future finished (%s); layers %s"
+                               % (e[4], ran.get(e[5], 0), st[0], types)})
+            break
+    # (3) untargeted futures still get the reference outcome
     touched = set(e[5] for e in log if e[3] == "op" and e[4] == "cancel")
     # a raising poll call fails whatever it was shown (a schedule-dependent set, further mapped by
     # the layers above): in such runs the outcome comparison is left to C08 / C01
